@@ -161,7 +161,7 @@ class Binding:
         try:
             if name == "add_edges":
                 its = op["items"]
-                hasw = any(it["w"] != 0 for it in its)
+                hasw = any(it["w"] != 0 or it.get("zero") for it in its)
                 if hasw and not obj.is_weighted():
                     return True           # weights on an unweighted object
                 keys = [(tuple(it["k"]["s"]), tuple(it["k"]["t"]), it["k"]["x"]) for it in its]
@@ -234,7 +234,9 @@ class Binding:
                 obj.add_nodes(nodes)
         elif name == "add_edge":
             kw = {}
-            if op["w"] != 0:
+            if op.get("zero"):
+                kw["weight"] = 0              # the number zero, not "no weight"
+            elif op["w"] != 0:
                 kw["weight"] = op["w"]
             if op["hasmd"]:
                 kw["metadata"] = md_in(op["md"])
@@ -249,8 +251,8 @@ class Binding:
             its = op["items"]
             edges = [self.api_edge(it["k"]) for it in its]
             kw = {}
-            if any(it["w"] != 0 for it in its):
-                kw["weights"] = [it["w"] if it["w"] != 0 else 1 for it in its]
+            if any(it["w"] != 0 or it.get("zero") for it in its):
+                kw["weights"] = [0 if it.get("zero") else (it["w"] if it["w"] != 0 else 1) for it in its]
             if any(it["hasmd"] for it in its):
                 kw["metadata"] = [md_in(it["md"]) for it in its]
             if kind in ("hg", "dir"):
